@@ -132,6 +132,7 @@ func (e *Engine) SetDevelopmentMode(enabled bool) {
 // Render renders a template with the given context
 func (e *Engine) Render(name string, context map[string]interface{}) (string, error) {
 	LogInfo("Rendering template: %s", name)
+	verifYield("render.start")
 
 	template, err := e.Load(name)
 	if err != nil {
@@ -214,6 +215,7 @@ func (e *Engine) Load(name string) (*Template, error) {
 		e.mu.RLock()
 		tmpl, ok := e.templates[name]
 		e.mu.RUnlock()
+		verifYield("load.afterCacheLookup")
 
 		// If template exists in cache
 		if ok {
@@ -286,6 +288,7 @@ func (e *Engine) Load(name string) (*Template, error) {
 		// Successfully loaded template
 		break
 	}
+	verifYield("load.beforeStore")
 
 	// If we failed to load the template from any loader
 	if template == nil {
